@@ -94,6 +94,10 @@ def decorate_jobs(jobs, seed, prop):
         r = Rng(seed, prop, 'layout', i)
         if j['plan'].get('profile') != 'flow' and isinstance(init, dict) and ('sample' in init or 'builder' in init) and 'layout' not in init and 'relabel' not in init and r.chance(0.125):
             init['layout'] = [r.below(1 << 30) for _ in range(r.range(1, 3))]
+    # F-NOSEEK: in a tenth of the runs every save goes to a stream that cannot seek (pipe, socket, compressing filter)
+    for i, j in enumerate(jobs):
+        if 'pipe_saves' not in j['plan'] and j['plan'].get('profile') not in ('flow', 'describe') and Rng(seed, prop, 'pipe-saves', i).chance(0.1):
+            j['plan']['pipe_saves'] = True
     # F-REUSE: in a fifth of the runs restarts load the saved file back into the NifFile object that wrote it
     for i, j in enumerate(jobs):
         if 'reuse_object' not in j['plan'] and Rng(seed, prop, 'reuse-object', i).chance(0.2):
